@@ -62,6 +62,10 @@ func (n *EvalLambdaNode) EvalTime(scope *Scope, _ ExecutionState) (time.Time, er
 	if err != nil {
 		return time.Time{}, err
 	}
+	if typ == ast.TTime {
+		return n.nodeEvaluator.EvalTime(scope, n.state)
+	}
+
 	return time.Time{}, ErrTypeGuardFailed{RequestedType: ast.TTime, ActualType: typ}
 }
 
